@@ -32,8 +32,7 @@ type errException struct {
 
 // storageErrExceptions: frozen table (DESIGN.md 5/C14). One construct each.
 var storageErrExceptions = []errException{
-	{"(*kv.DB).moveMergedRoots", "Store", []an.ErrVerdict{an.ErrSwallowed}, "retiring merged parents is best-effort by design: a parent left in current/ is merely merged again", nil},
-	{"(*kv.DB).moveMergedRoots", "DeleteObjectWithContext", []an.ErrVerdict{an.ErrSwallowed}, "retiring merged parents is best-effort by design", nil},
+	{"<retire>", "*", []an.ErrVerdict{an.ErrSwallowed, an.ErrDropped}, "retiring merged parents is best-effort by design: a parent left in current/ is merely merged again (applies to the function that copies to merged/ and deletes from current/, and to the loop that calls it)", nil},
 	{"kv.mergeRoots", "Load", []an.ErrVerdict{an.ErrSwallowed}, "merge-on-open skips a version whose objects answer a well-formed NoSuchKey (vacuumed), only when listing", []string{"nosuchkey", "param:skipUnreadable"}},
 	{"kv.mergeRoots", "Clone", []an.ErrVerdict{an.ErrSwallowed}, "merge-on-open skips a version it cannot fold, only when listing (never for an explicit version set)", []string{"param:skipUnreadable"}},
 	{"kv.loadRootFromAny", "loadRoot", []an.ErrVerdict{an.ErrSwallowed}, "a well-formed NoSuchKey in one prefix means: try the next prefix", []string{"nosuchkey"}},
@@ -138,7 +137,13 @@ func errorsRule(c *Ctx, rule string, keep func(pos string) bool) {
 		}
 		matched := false
 		for i, ex := range storageErrExceptions {
-			if ex.Fn != fname || ex.Callee != callee {
+			if ex.Fn == "<retire>" {
+				r := retireFunc(c)
+				in := r != nil && (s.Fn == r || s.Call.Common().StaticCallee() == r)
+				if !in {
+					continue
+				}
+			} else if ex.Fn != fname || ex.Callee != callee {
 				continue
 			}
 			for _, v := range ex.Verdicts {
